@@ -128,7 +128,7 @@ MC_TimeoutMs == %d
 
 
 def mc_run(chk, name, prog, invariants, properties=(), ext_menu=(), max_ext=1, max_cancel=0, dev=None,
-           expect_violation=None, constraint="Bound", timeout=1200, track_log=False):
+           expect_violation=None, constraint="Bound", timeout=1200, track_log=False, fair=False):
     """TLC exhaustive check of Engine.tla on one scenario program."""
     d, dev, cfg = mc_module(chk, name, prog, ext_menu, max_ext, max_cancel, dev)
     B = lambda b: "TRUE" if b else "FALSE"
@@ -140,7 +140,7 @@ def mc_run(chk, name, prog, invariants, properties=(), ext_menu=(), max_ext=1, m
              "  Dev_NoHandlersUnvalidated = " + B(dev["no_handlers_unvalidated"]),
              "  Dev_ClockMix = " + B(dev["clock_mix"]),
              "  TrackLog = " + B(track_log),
-             "INIT Init", "NEXT Next", "CONSTRAINT " + constraint]
+             ] + (["SPECIFICATION FairSpec"] if fair else ["INIT Init", "NEXT Next", "CONSTRAINT " + constraint])
     lines += ["INVARIANT " + i for i in invariants]
     lines += ["PROPERTY " + p for p in properties]
     (d / ("MC_%s.cfg" % name)).write_text("\n".join(lines) + "\n")
@@ -197,7 +197,9 @@ def mc_plans(chk, pid):
                  {"ext_menu": [("Resp", None), ("Resp1", None)], "max_ext": 2, "dev": {"match_done_waiters": False}})],
         "C03": [("fanout_delay", sc.fanout(2, 2, 2, 5, 1) if q else sc.fanout(2, 3, 2, 5, 1), ["Inv_C03a"], ["Act_C03b_AsCoded"], {}),
                 ("fanout_delay_strict", sc.fanout(2, 2, 2, 5, 1), ["Inv_C03a"], ["Act_C03b"], {"expect_violation": "Act_C03b"}),
-                ("fanout_nodelay", sc.fanout(1, 3, None, 0, 0), ["Inv_C03a"], ["Act_C03b_AsCoded"], {"replay": True})],
+                ("fanout_nodelay", sc.fanout(1, 3, None, 0, 0), ["Inv_C03a"], ["Act_C03b_AsCoded"], {"replay": True}),
+                ("liveness", sc.fanout(2, 2, 2, 5, 1, timeout=None), ["Inv_C03a"], ["Live_Progress"], {"fair": True}),
+                ("liveness_wait", sc.waiter(5), ["Inv_C03a"], ["Live_Progress"], {"fair": True, "ext_menu": [("Resp", None)], "max_ext": 1})],
         "C04": [("fanout", sc.fanout(2, 3, 2, 0, 1, timeout=20) if q else sc.fanout(2, 4, 2, 5, 1, timeout=20), ["Inv_C04", "Inv_C31"], [], {"max_cancel": 1}),
                 ("double_stop", sc.double_stop(2), ["Inv_C04", "Inv_C31"], [], {"max_cancel": 1, "replay": True})],
         "C35": [("fanout", sc.fanout(2, 3, 2, 0, 1) if q else sc.fanout(2, 4, 2, 5, 1), ["Inv_C35"], [], {}),
